@@ -7,7 +7,7 @@ PROPERTY = "C09"
 LEVEL = "model_checking"
 RULE = ("bounded-exhaustive over byte strings: for every point of the subgroup alphabet (+ identity) x {G1,G2} x {compressed, uncompressed}: encode vs "
         "model bytes, decode checked/unchecked; for each valid encoding ALL 8 settings of the three flag bits x coordinate variants {as is; each "
-        "coordinate component +q when it still fits; an x with no y; the x of a curve point outside the subgroup; uncompressed: -y, y+q, y+1; top bits set in "
+        "coordinate component +q when it still fits; an x with no y; the x of a curve point outside the subgroup; uncompressed: -y, y+q, y+1, the point scaled onto an isomorphic curve (u^2 x, u^3 y); compressed G1: crafted x of an order-r point of an isomorphic curve with x^3+4 a non-residue; top bits set in "
         "a non-flag chunk}; identity encodings with one non-zero byte at EVERY position x {0x01,0x80}; all 256 first-byte values over {valid, zero, 0xFF} tails. "
         "oracle: accept <=> bytes == encode(decode(bytes)) and on curve and in the subgroup, computed by the Python model. "
         "distinct by construction; non-trivial = not the all-zero string")
@@ -117,6 +117,53 @@ def points(g, seed, tier):
     return pts
 
 
+def _cube_roots(a, q=ref.q):
+    """all cube roots of a in Fq (q - 1 = 9 m, 3 does not divide m), [] if a is not a cube"""
+    if a % q == 0:
+        return [0]
+    if pow(a, (q - 1) // 3, q) != 1:
+        return []
+    m = (q - 1) // 9
+    k = next(k for k in range(3) if (1 + k * m) % 3 == 0)
+    y0 = pow(a, (1 + k * m) // 3, q)                    # y0^3 = a * (a^m)^k, and a^m has order 1 or 3
+    n = next(n for n in range(2, 200) if pow(n, (q - 1) // 3, q) != 1)
+    z9 = pow(n, m, q)                                   # a primitive 9th root of unity
+    for j in range(9):
+        y = y0 * pow(z9, j, q) % q
+        if pow(y, 3, q) == a % q:
+            z3 = pow(z9, 3, q)
+            return [y, y * z3 % q, y * z3 * z3 % q]
+    raise AssertionError("cube root not found")
+
+
+@functools.lru_cache(maxsize=None)
+def isomorphic_curve_x(count=3):
+    """Compressed G1 strings built for a decoder that forgets the "x^3 + 4 is a square" test: x' = u^2 x for a subgroup point (x, y) and
+    u^6 = -4 / (2 x^3 + 4). Then x'^3 + 4 is a NON-residue, the square-root routine applied to it anyway returns +-u^3 y (its square is
+    -(x'^3 + 4)), and (x', +-u^3 y) is the image of (x, y) on the isomorphic curve y^2 = x^3 + 4 u^6: off the curve, yet of order r, so a
+    subgroup test that follows (whose formulas do not involve the curve constant) passes.  Returns [x'] - every one must be rejected."""
+    q = ref.q
+    out = []
+    k = 2
+    while len(out) < count and k < 400:
+        k += 1
+        P = ref.pt_mul(ref.G1_GEN, k, 1)
+        x = P[0]
+        t = (-4) * pow(2 * pow(x, 3, q) + 4, -1, q) % q
+        for c in _cube_roots(t):
+            if pow(c, (q - 1) // 2, q) != 1:
+                continue
+            u = pow(c, (q + 1) // 4, q)
+            xp = u * u * x % q
+            a = (pow(xp, 3, q) + 4) % q
+            assert pow(a, (q - 1) // 2, q) == q - 1, "x'^3 + 4 must be a non-residue"
+            yy = pow(u, 3, q) * P[1] % q
+            assert yy * yy % q == (-a) % q
+            out.append(xp)
+            break
+    return out
+
+
 def mutations(g, comp, seed, tier):
     """[(bytes, why)] deduplicated"""
     q = ref.q
@@ -151,6 +198,11 @@ def mutations(g, comp, seed, tier):
                 y = P[1]
                 for yy, why in ((F.neg(y), "-y (valid: the opposite point)"), (F.add(y, F.one), "y+1 (off curve)")):
                     variants.append((ref.coord_bytes(P[0], g) + ref.coord_bytes(yy, g), why))
+                # the same point on an ISOMORPHIC curve y^2 = x^3 + b u^6: (u^2 x, u^3 y) - what the X, Y of an unnormalised Jacobian triple
+                # look like; off the curve but of order r under the (curve-constant-free) group-law formulas
+                for u in ((2, 3) if g == 1 else ((2, 0), (1, 1))):
+                    u2 = F.mul(u, u)
+                    variants.append((ref.coord_bytes(F.mul(u2, P[0]), g) + ref.coord_bytes(F.mul(F.mul(u2, u), y), g), "order-r point of an isomorphic curve (scaled by u = %s)" % (u,)))
         for base, why in variants:
             for flags in range(8):
                 b2 = bytearray(base)
@@ -165,6 +217,12 @@ def mutations(g, comp, seed, tier):
         b2 = bytearray(ref.coord_bytes(no_y, g) + (b"" if comp else ref.coord_bytes(F.one, g)))
         b2[0] = (b2[0] & 0x1F) | (flags << 5)
         out.append((bytes(b2), "x without y / flags %d" % flags))
+    if g == 1 and comp:
+        for xp in isomorphic_curve_x(2 if tier == "quick" else 6):
+            for flags in range(8):
+                b2 = bytearray(ref.coord_bytes(xp, 1))
+                b2[0] = (b2[0] & 0x1F) | (flags << 5)
+                out.append((bytes(b2), "x of an order-r point of an isomorphic curve whose x^3 + 4 is a non-residue / flags %d" % flags))
     # malformed identities
     ident = bytearray(ref.encode_point(None, g, comp))
     for pos in range(len(ident)):
